@@ -124,6 +124,7 @@
 	#include <curl/curl.h>
 #endif
 
+#include "char.h"
 #include "file.h"
 #include "miniz.h"
 #include "stack.h"
@@ -288,19 +289,27 @@ void traverse_for_images(token * t, DString * text, mmd_engine * e, long * offse
 				if (t->next && t->next->type == PAIR_PAREN) {
 					t = t->next;
 
-					memcpy(url, &text->str[t->start + *offset + 1], t->len - 2);
-					url[t->len - 2] = '\0';
-					clean = clean_string(url, false, true);
+					// The parentheses may hold a title and attributes after the url
+					size_t pos = t->start + *offset + 1;
+					size_t end = pos;
 
-					HASH_FIND_STR(e->asset_hash, clean, a);
-
-					if (a) {
-						// Replace url with asset path
-						memcpy(&destination[7], a->asset_path, 36);
-						* offset += d_string_replace_text_in_range(text, t->start + *offset, t->len, clean, destination);
+					while (char_is_whitespace(text->str[pos])) {
+						pos++;
 					}
 
-					free(clean);
+					clean = url_accept(text->str, pos, t->start + *offset + t->len - 1 - pos, &end, false);
+
+					if (clean) {
+						HASH_FIND_STR(e->asset_hash, clean, a);
+
+						if (a) {
+							// Replace url with asset path
+							memcpy(&destination[7], a->asset_path, 36);
+							* offset += d_string_replace_text_in_range(text, pos, end - pos, clean, destination);
+						}
+
+						free(clean);
+					}
 				}
 
 				break;
